@@ -44,7 +44,14 @@ pub fn normalize(c: &BigInt, s: u32) -> (BigInt, u32) {
 pub fn classify(c: &BigInt, s: u32) -> R<DV> {
     let (cm, sm) = normalize(c, s);
     // |value| > MAX  <=>  |cm| > MAX * 10^sm
-    if cm.abs().cmp(&dec_max().mul(&BigInt::pow10(sm))) == Ordering::Greater { return Err(Stop::Err("outside the Decimal range")); }
+    // |value| > MAX.  Within half a unit above MAX the correctly rounded result is MAX itself, which is in range: the statement
+    // does not say whether "outside the range" refers to the exact or to the rounded result, so that sliver is not asserted.
+    let lim = dec_max().mul(&BigInt::pow10(sm));
+    if cm.abs().cmp(&lim) == Ordering::Greater {
+        let twice_excess = cm.abs().sub(&lim).mul(&BigInt::from_u64(2));
+        if twice_excess.cmp(&BigInt::pow10(sm)) == Ordering::Less { return Err(Stop::Unspec("DecimalRangeEdge")); }
+        return Err(Stop::Err("outside the Decimal range"));
+    }
     if sm > MAX_SCALE { return Err(Stop::Unspec("DecimalScaleBeyond28")); }
     if cm.abs().cmp(&dec_max()) == Ordering::Greater { return Err(Stop::Unspec("DecimalCoefficientBeyond96Bits")); }
     Ok(DV::Dec { c: cm, s: sm })
@@ -166,6 +173,7 @@ impl Sem for DecSem {
                 let (xf, yf) = (to_f64(&x.0, x.1), to_f64(&y.0, y.1));
                 if xf < 0.0 && yf.fract() != 0.0 { return Err(Stop::Unspec("FunctionOutsideDomain")); }
                 if xf == 0.0 && yf <= 0.0 { return Err(Stop::Unspec("FunctionOutsideDomain")); }
+                if yf.abs() > 1e6 { return Err(Stop::Unspec("HugeExponent")); }
                 let r = xf.powf(yf);
                 if r == 0.0 && xf != 0.0 { return Err(Stop::Unspec("ApproximateValueBelowResolution")); }
                 self.approx(r)
